@@ -54,6 +54,11 @@ pub struct Workload {
     /// set_catalog and set_tsig_keys would) instead of one
     #[serde(default)]
     pub two_swappers: bool,
+    /// a further thread installs this many *empty* key sets while the swapper installs its
+    /// generations (two concurrent callers of set_tsig_keys); queries are unsigned in such
+    /// workloads, the key set is judged after all threads have finished
+    #[serde(default)]
+    pub empty_key_rival: u8,
 }
 
 fn a_query() -> impl Strategy<Value = Query> {
@@ -68,9 +73,9 @@ pub fn workload(schedules: u16) -> impl Strategy<Value = Workload> {
         prop::collection::vec(prop::collection::vec(a_query(), 1..=3), 2..=3),
         prop_oneof![3 => Just(Sched::Random), 1 => (1u8..5).prop_map(Sched::Pct)],
         any::<u64>(),
-        any::<bool>(),
+        (any::<bool>(), prop_oneof![3 => Just(0u8), 1 => 1u8..=3]),
     )
-        .prop_map(move |(generations, catalog_first, swapper_yields, queriers, sched, sched_seed, two_swappers)| Workload {
+        .prop_map(move |(generations, catalog_first, swapper_yields, queriers, sched, sched_seed, (two_swappers, empty_key_rival))| Workload {
             generations,
             catalog_first,
             swapper_yields,
@@ -79,6 +84,7 @@ pub fn workload(schedules: u16) -> impl Strategy<Value = Workload> {
             sched_seed,
             schedules,
             two_swappers,
+            empty_key_rival,
         })
 }
 
@@ -269,10 +275,25 @@ fn execution(w: &Workload, cats: &Arc<Vec<Arc<Cat>>>, agg: &Arc<Mutex<Agg>>) {
             handles.push(shuttle::thread::spawn(move || swapper(0)));
         }
     }
+    if w.empty_key_rival > 0 {
+        let server = server.clone();
+        let n = w.empty_key_rival;
+        handles.push(shuttle::thread::spawn(move || {
+            for _ in 0..n {
+                shuttle::thread::yield_now();
+                server.set_tsig_keys(Arc::new(TsigKeyMap::new()));
+            }
+        }));
+    }
     for (qi, qs) in w.queriers.iter().enumerate() {
         let server = server.clone();
         let prog = prog.clone();
-        let qs = qs.clone();
+        let mut qs = qs.clone();
+        if w.empty_key_rival > 0 {
+            for q in qs.iter_mut() {
+                q.signed_back = None;
+            }
+        }
         let swapped_during = swapped_during.clone();
         let stats = stats.clone();
         handles.push(shuttle::thread::spawn(move || querier(&server, &prog, &qs, qi, &swapped_during, &stats)));
@@ -281,8 +302,53 @@ fn execution(w: &Workload, cats: &Arc<Vec<Arc<Cat>>>, agg: &Arc<Mutex<Agg>>) {
         h.join().expect("thread panicked");
     }
     // after every replacement has returned: the brackets are exact, the newest generations must be in use
-    let last = [Query { kind: 0, signed_back: None, tcp: false }, Query { kind: 4, signed_back: Some(0), tcp: true }];
+    let last = [Query { kind: 0, signed_back: None, tcp: false }];
     querier(&server, &prog, &last, 9, &swapped_during, &stats);
+    // the catalog and the key set the server reports are the ones it uses
+    {
+        let newest = prog.cat_installed.load(Ordering::SeqCst) as usize;
+        if !Arc::ptr_eq(&server.catalog(), &cats[newest]) {
+            oracle_fail("stale-catalog-after-set_catalog-returned", &format!("Server::catalog() is not the catalog of generation {newest}, whose installation has returned"));
+        }
+        let km = server.tsig_keys();
+        let installed: Option<u32> = km.get(&qn(&key_name())).and_then(|(_, sec)| (1..=w.generations as u32).find(|g| secret(*g)[..] == sec[..]));
+        if w.empty_key_rival == 0 {
+            let newest_keys = prog.key_installed.load(Ordering::SeqCst) as u32;
+            if installed != Some(newest_keys) {
+                oracle_fail("stale-key-set-after-set_tsig_keys-returned", &format!("Server::tsig_keys() holds generation {installed:?}, generation {newest_keys} has been installed"));
+            }
+        }
+        let now = std::time::SystemTime::now().duration_since(std::time::UNIX_EPOCH).map(|d| d.as_secs()).unwrap_or(0);
+        let plain = query(0x32fe, &name("g.test."), mr::T_NS, true);
+        let s = sign(&plain, &key_name(), Alg::Sha256, &secret(installed.unwrap_or(1)), now, 3600);
+        let mut buf = vec![0u8; 65535];
+        let len = match server.handle_message(&s.bytes, ReceivedInfo::new(IpAddr::V4(Ipv4Addr::new(192, 0, 2, 99)), Transport::Tcp), &mut buf) {
+            Response::Single(len) => len,
+            Response::None => oracle_fail("no-response", "the final signed query got no response"),
+        };
+        let d = match vmodel::wire::decode_message_opts(&buf[..len], true) {
+            Ok(d) => d,
+            Err(e) => oracle_fail("response-does-not-decode", &format!("{e:?}")),
+        };
+        let rd = d.tsig().and_then(|t| mr::parse_tsig(&t.rdata));
+        let context = format!("after all threads finished Server::tsig_keys() holds generation {installed:?} (None = no key); final signed query answered {d:?}");
+        match (installed, rd) {
+            (Some(g), Some(rd)) => {
+                if rd.error != 0 || d.header.rcode == 9 {
+                    oracle_fail("handling-disagrees-with-the-installed-key-set", &context);
+                }
+                if response_mac_ok(&buf[..len], &s.mac, &key_name(), Alg::Sha256, &secret(g)) != Some(true) {
+                    oracle_fail("response-signed-with-a-different-key-generation", &context);
+                }
+            }
+            (None, Some(rd)) => {
+                if d.header.rcode != 9 || rd.error != 17 {
+                    oracle_fail("handling-disagrees-with-the-installed-key-set", &context);
+                }
+            }
+            (_, None) => oracle_fail("signed-request-answered-without-tsig", &context),
+        }
+    }
     let mut a = agg.lock().unwrap();
     a.completed += 1;
     let n = swapped_during.load(Ordering::SeqCst);
@@ -453,6 +519,9 @@ pub fn oracle(w: &Workload, st: &mut Stats) -> Verdict {
     st.class_n("signed-requests-verified", a.authenticated);
     st.class_n("signed-requests-rejected-consistently", a.rejected);
     st.class_n("complete-answers-checked", a.responses);
+    if w.empty_key_rival > 0 {
+        st.class("workloads-with-a-second-thread-installing-empty-key-sets");
+    }
     st.class(if w.two_swappers { "catalogs-and-key-sets-replaced-by-two-threads" } else { "catalogs-and-key-sets-replaced-by-one-thread" });
     if a.execs_with_swap_during_request > 0 {
         st.nontrivial(&(w, "swap-during-request"), || {
